@@ -732,7 +732,7 @@ fn trivial_address_spaces(ctx: &Ctx) {
 
 pub fn run(tier: Tier, replay: Option<String>) -> i32 {
     let ctx = crate::new_ctx("C11", tier, "model_checking", &replay);
-    ctx.set_rule("E3: stateless DFS over the interleavings, within the stated preemption bound, of real updater threads (lock; memory(); derive a map with one more / one less region or with one region swapped for a fresh one of the same range; replace; unlock - or give the update up: lock; memory(); unlock) and reader threads (memory(); read regions and tags; clone the snapshot; into_inner; drop; re-read; drop) on one GuestMemoryAtomic<GuestMemoryMmap> shared through cloned handles, or (three configurations) through one handle that all threads use by reference; scheduling points: every ArcSwap load/store and Mutex lock/unlock of the crate (hook H3, blocking on the update mutex modelled) plus the harness steps between a reader's operations. Oracle per schedule: every snapshot is exactly one published map (maps compared as lists of (start, region instance)), readable (tags through the mappings), unchanged when re-read; snapshots taken after a replacement completed show it; the final map contains every updater's region; no deadlock; after all handles are dropped every region was munmap'ed exactly once (interposed log). E1: BFS over all sequential histories up to the stated depth of {clone handle, drop handle, snapshot, clone snapshot, into_inner, drop snapshot/owned, an updater that panics while it holds the update lock (later updaters recover the guard from the PoisonError), every third update of a history carried out from a destructor while a panic unwinds, lock+replace with insert/remove (down to the empty map, published as derived or as GuestMemoryMmap::new())/swap (same range, fresh region)}, state = (current map, held snapshots, owned maps, handles), with the owner-graph invariant mapped <=> reachable checked against the interposed munmap log in every state.");
+    ctx.set_rule("E3: stateless DFS over the interleavings, within the stated preemption bound, of real updater threads (lock; memory(); derive a map with one more / one less region or with one region swapped for a fresh one of the same range; replace; unlock - or give the update up: lock; memory(); unlock) and reader threads (memory(); read regions and tags; clone the snapshot; into_inner; drop; re-read; drop) on one GuestMemoryAtomic<GuestMemoryMmap> shared through cloned handles, or (three configurations) through one handle that all threads use by reference; scheduling points: every ArcSwap load/store and Mutex lock/unlock of the crate (hook H3, blocking on the update mutex modelled) plus the harness steps between a reader's operations. Oracle per schedule: every snapshot is exactly one published map (maps compared as lists of (start, region instance)), readable (tags through the mappings), unchanged when re-read; snapshots taken after a replacement completed show it; the final map contains every updater's region; no deadlock; after all handles are dropped every region was munmap'ed exactly once (interposed log). E1: BFS over all sequential histories up to the stated depth of {clone handle, drop handle, snapshot, clone snapshot, into_inner, drop snapshot/owned, an updater that panics while it holds the update lock (later updaters recover the guard from the PoisonError), every third update of a history carried out from a destructor while a panic unwinds, lock+replace with insert/remove (down to the empty map, published as derived or as GuestMemoryMmap::new())/swap (same range, fresh region)} - histories of up to 3 (thorough 4) operations are all expanded, merged or not -, state = (current map, held snapshots, owned maps, handles), with the owner-graph invariant mapped <=> reachable checked against the interposed munmap log in every state.");
     ctx.assume("ArcSwap::load/store are treated as atomic steps (arc_swap internals execute for real but are not interleaved internally); SC");
     if let Some(r) = ctx.replay_of.clone() {
         let c = &r["case"];
